@@ -12,3 +12,394 @@ pub(crate) fn parse_error_item() -> ParseError<'static> {
 pub(crate) fn remaining(it: &ProguardRecordIter<'_>) -> usize {
     it.slice.len()
 }
+
+use crate::verif_support::inject::{self, bad, cls, fld, hdr, mth, Item};
+use crate::verif_support::stubs::from_utf8_model;
+
+/// Exact model of `char::is_numeric` on U+0000..U+00FF, the only range a
+/// `u8 as char` reaches (Unicode general categories Nd/Nl/No in Latin-1:
+/// ASCII digits, superscripts 2 3 1, vulgar fractions 1/4 1/2 3/4). Proved equal to
+/// the real function on all 256 inputs by `s_is_numeric_latin1`.
+pub(crate) fn is_numeric_model(c: char) -> bool {
+    let v = c as u32;
+    assert!(v < 0x100, "model: is_numeric_model used outside Latin-1");
+    (v >= 0x30 && v <= 0x39) || v == 0xB2 || v == 0xB3 || v == 0xB9 || v == 0xBC || v == 0xBD || v == 0xBE
+}
+
+#[kani::proof]
+#[kani::unwind(12)]
+fn s_is_numeric_latin1() {
+    let b: u8 = kani::any();
+    let c = b as char;
+    assert!(c.is_numeric() == is_numeric_model(c), "model: is_numeric differs on Latin-1");
+}
+
+fn is_nl(b: u8) -> bool {
+    b == b'\r' || b == b'\n'
+}
+
+fn has_nl(s: &str) -> bool {
+    let b = s.as_bytes();
+    let mut i = 0;
+    while i < b.len() {
+        if is_nl(b[i]) {
+            return true;
+        }
+        i += 1;
+    }
+    false
+}
+
+fn opt_has_nl(s: Option<&str>) -> bool {
+    match s {
+        Some(s) => has_nl(s),
+        None => false,
+    }
+}
+
+fn record_has_nl(r: &ProguardRecord) -> bool {
+    match r {
+        ProguardRecord::Header { key, value } => has_nl(key) || opt_has_nl(*value),
+        ProguardRecord::Class { original, obfuscated } => has_nl(original) || has_nl(obfuscated),
+        ProguardRecord::Field { ty, original, obfuscated } => has_nl(ty) || has_nl(original) || has_nl(obfuscated),
+        ProguardRecord::Method { ty, original, obfuscated, arguments, original_class, .. } => {
+            has_nl(ty) || has_nl(original) || has_nl(obfuscated) || has_nl(arguments) || opt_has_nl(*original_class)
+        }
+    }
+}
+
+/// Number of leading line-terminator bytes.
+fn lead_nl(s: &[u8]) -> usize {
+    let mut k = 0;
+    let mut i = 0;
+    let mut in_lead = true;
+    while i < s.len() {
+        if in_lead && is_nl(s[i]) {
+            k = i + 1;
+        } else {
+            in_lead = false;
+        }
+        i += 1;
+    }
+    k
+}
+
+/// C06, inductive step (a)(b)(c): for every non-empty slice of up to N bytes
+/// (prefix `PRE` concrete, the rest fully symbolic, symbolic length) one call of
+/// the real record parser: never panics (default Kani checks on); returns a
+/// strict suffix of its input (=> the iterator terminates and yields at most one
+/// item per input byte, for inputs of any length, by induction); and no string
+/// of a returned record contains a line terminator.
+fn c06_step<const P: usize, const N: usize>(pre: &[u8; P]) {
+    let mut buf: [u8; N] = kani::any();
+    let mut i = 0;
+    while i < P {
+        buf[i] = pre[i];
+        i += 1;
+    }
+    let len: usize = kani::any();
+    kani::assume(len >= 1 && len >= P && len <= N);
+    let s = &buf[..len];
+    let (r, rest) = parse_proguard_record(s);
+    assert!(rest.len() < s.len(), "C06: the parser did not consume anything");
+    if !rest.is_empty() {
+        assert!(rest.as_ptr() == unsafe { s.as_ptr().add(s.len() - rest.len()) }, "C06: the rest is not a suffix of the input");
+    }
+    match &r {
+        Ok(rec) => {
+            assert!(!record_has_nl(rec), "C06: a record string contains a line terminator");
+            kani::cover!(matches!(rec, ProguardRecord::Header { .. }), "a header parsed");
+        }
+        Err(e) => {
+            core::mem::forget(*e);
+        }
+    }
+    kani::cover!(r.is_err() && !rest.is_empty(), "error with input left");
+}
+
+/// C06, inductive step (d) locality: the result of one step depends only on the
+/// first line. With k leading terminators and p the first terminator after
+/// them, the record parsed from the whole slice equals the record parsed from
+/// the line alone, and the rest resumes (modulo terminators) right after that line.
+fn c06_locality<const P: usize, const N: usize>(pre: &[u8; P]) {
+    let mut buf: [u8; N] = kani::any();
+    let mut i = 0;
+    while i < P {
+        buf[i] = pre[i];
+        i += 1;
+    }
+    let s = &buf[..];
+    let k = lead_nl(s);
+    kani::assume(k < N);
+    // first terminator after the leading ones
+    let mut p = N;
+    i = N;
+    while i > k {
+        i -= 1;
+        if is_nl(s[i]) {
+            p = i;
+        }
+    }
+    let (r1, rest1) = parse_proguard_record(s);
+    let (r2, rest2) = parse_proguard_record(&s[..p]);
+    match (&r1, &r2) {
+        (Ok(a), Ok(b)) => assert!(a == b, "C06: the record depends on bytes after its line"),
+        (Err(_), Err(_)) => {}
+        _ => panic!("C06: whether a line parses depends on bytes after it"),
+    }
+    assert!(rest2.is_empty() || lead_nl(rest2) == rest2.len(), "C06: a single line left a rest");
+    // rest1, stripped of leading terminators, is s[p..] stripped of leading terminators
+    let a = rest1.len() - lead_nl(rest1);
+    let b = (N - p) - lead_nl(&s[p..]);
+    assert!(a == b, "C06: parsing does not resume right after the line");
+    kani::cover!(p < N && r1.is_ok(), "record followed by more input");
+    kani::cover!(p < N && r1.is_err(), "bad line followed by more input");
+}
+
+macro_rules! c06 {
+    ($name:ident, $f:ident, $pre:expr, $p:expr, $n:expr, $uw:expr) => {
+        #[kani::proof]
+        #[kani::stub(core::str::from_utf8, from_utf8_model)]
+        #[kani::stub(char::is_numeric, is_numeric_model)]
+        #[kani::stub(core::slice::memchr::memchr, crate::java::verif_harness::memchr_model)]
+        #[kani::stub(core::slice::memchr::memrchr, crate::java::verif_harness::memrchr_model)]
+        #[kani::unwind($uw)]
+        fn $name() {
+            $f::<$p, $n>($pre);
+        }
+    };
+}
+c06!(c06_step_any_3, c06_step, b"", 0, 3, 6);
+c06!(c06_step_any_4, c06_step, b"", 0, 4, 7);
+c06!(c06_step_any_5, c06_step, b"", 0, 5, 8);
+c06!(c06_step_member_4, c06_step, b"    ", 4, 8, 11);
+c06!(c06_step_member_6, c06_step, b"    ", 4, 10, 13);
+c06!(c06_step_header_4, c06_step, b"#", 1, 5, 8);
+c06!(c06_step_header_6, c06_step, b"# ", 2, 8, 11);
+c06!(c06_step_sourcefile_3, c06_step, b"# {\"id\":\"sourceFile\",\"fileName\":\"", 33, 36, 40);
+c06!(c06_step_sourcefile_5, c06_step, b"# {\"id\":\"sourceFile\",\"fileName\":\"", 33, 38, 42);
+c06!(c06_locality_any_4, c06_locality, b"", 0, 4, 7);
+c06!(c06_locality_any_5, c06_locality, b"", 0, 5, 8);
+c06!(c06_locality_header_4, c06_locality, b"#", 1, 5, 8);
+c06!(c06_locality_sourcefile_4, c06_locality, b"# {\"id\":\"sourceFile\",\"fileName\":\"", 33, 37, 41);
+
+// ---------------------------------------------------------------- C19: file-level metadata == folds over the record stream
+
+/// One stream item of symbolic kind: error line, header (key from {compiler,
+/// compiler_version, min_api, other} x value from {none, R8, 15, x}), class,
+/// field, method without / with a line mapping.
+fn any_item() -> Item {
+    let k: u8 = kani::any();
+    kani::assume(k < 6);
+    if k == 0 {
+        bad()
+    } else if k == 1 {
+        let h: u8 = kani::any();
+        kani::assume(h < 4);
+        let v: u8 = kani::any();
+        kani::assume(v < 4);
+        let key = if h == 0 { "compiler" } else if h == 1 { "compiler_version" } else if h == 2 { "min_api" } else { "pg_map_id" };
+        if v == 0 {
+            hdr(key, None)
+        } else if v == 1 {
+            hdr(key, Some("R8"))
+        } else if v == 2 {
+            hdr(key, Some("15"))
+        } else {
+            hdr(key, Some("x"))
+        }
+    } else if k == 2 {
+        cls("A", "a")
+    } else if k == 3 {
+        fld("f", "g")
+    } else if k == 4 {
+        mth("f", "m", "", None, inject::NO_LM)
+    } else {
+        mth("f", "m", "", None, inject::lm(1, 2, None, None))
+    }
+}
+
+fn str_eq(a: &str, b: &str) -> bool {
+    a.len() == b.len() && a.as_bytes() == b.as_bytes()
+}
+
+fn opt_str_eq(a: Option<&str>, b: Option<&str>) -> bool {
+    match (a, b) {
+        (None, None) => true,
+        (Some(x), Some(y)) => str_eq(x, y),
+        _ => false,
+    }
+}
+
+/// C19: `has_line_info` and `summary` equal the reference folds over the whole
+/// stream, for every stream of N items of symbolic kind.
+fn c19_folds<const N: usize>(items: [Item; N]) {
+    let src = inject::set(&items);
+    let mapping = ProguardMapping::new(src);
+    // reference folds, straight from the property statement
+    let mut any_lm = false;
+    let mut classes = 0usize;
+    let mut methods = 0usize;
+    let mut compiler: Option<&str> = None;
+    let mut version: Option<&str> = None;
+    let mut min_api: Option<u32> = None;
+    let mut i = 0;
+    while i < N {
+        let it = &items[i];
+        if it.kind == inject::K_METHOD {
+            methods += 1;
+            if it.lm.present {
+                any_lm = true;
+            }
+        } else if it.kind == inject::K_CLASS {
+            classes += 1;
+        } else if it.kind == inject::K_HEADER {
+            let v = if it.has_b { Some(it.b) } else { None };
+            if str_eq(it.a, "compiler") {
+                compiler = v;
+            } else if str_eq(it.a, "compiler_version") {
+                version = v;
+            } else if str_eq(it.a, "min_api") {
+                // the value as a number, if it is one ("15" is the only numeric value in the universe)
+                min_api = match v {
+                    Some(s) if str_eq(s, "15") => Some(15),
+                    _ => None,
+                };
+            }
+        }
+        i += 1;
+    }
+    assert!(mapping.has_line_info() == any_lm, "C19: has_line_info differs from the fold over all records");
+    let sum = mapping.summary();
+    assert!(sum.class_count() == classes, "C19: class count");
+    assert!(sum.method_count() == methods, "C19: method count");
+    assert!(opt_str_eq(sum.compiler(), compiler), "C19: compiler is not the last compiler header");
+    assert!(opt_str_eq(sum.compiler_version(), version), "C19: compiler_version is not the last such header");
+    assert!(sum.min_api() == min_api, "C19: min_api is not the last such header");
+    kani::cover!(any_lm && items[N - 1].kind == inject::K_METHOD && items[N - 1].lm.present && !items[0].lm.present, "line info only in the last record");
+    kani::cover!(compiler.is_some() && classes > 0, "compiler header and classes");
+}
+
+macro_rules! c19f {
+    ($name:ident, $n:expr, $items:expr) => {
+        #[kani::proof]
+        #[kani::stub(crate::mapping::parse_proguard_record, inject::parse_stub)]
+        #[kani::unwind(24)]
+        fn $name() {
+            c19_folds::<$n>($items);
+        }
+    };
+}
+c19f!(c19_folds_3, 3, [any_item(), any_item(), any_item()]);
+c19f!(c19_folds_5, 5, [any_item(), any_item(), any_item(), any_item(), any_item()]);
+c19f!(c19_folds_8, 8, [any_item(), any_item(), any_item(), any_item(), any_item(), any_item(), any_item(), any_item()]);
+
+/// C19: `is_valid` is true exactly when, among the first 50 items, a class
+/// record is followed (anywhere later within those 50) by a field or method
+/// record. 52 items of symbolic kind in {error, header, class, field, method}.
+fn kind_item() -> Item {
+    let k: u8 = kani::any();
+    kani::assume(k < 5);
+    if k == 0 {
+        bad()
+    } else if k == 1 {
+        hdr("x", None)
+    } else if k == 2 {
+        cls("A", "a")
+    } else if k == 3 {
+        fld("f", "g")
+    } else {
+        mth("f", "m", "", None, inject::NO_LM)
+    }
+}
+
+#[kani::proof]
+#[kani::stub(crate::mapping::parse_proguard_record, inject::parse_stub)]
+#[kani::unwind(54)]
+fn c19_is_valid_window() {
+    let items: [Item; 52] = [
+        kind_item(), kind_item(), kind_item(), kind_item(), kind_item(), kind_item(), kind_item(), kind_item(), kind_item(), kind_item(),
+        kind_item(), kind_item(), kind_item(), kind_item(), kind_item(), kind_item(), kind_item(), kind_item(), kind_item(), kind_item(),
+        kind_item(), kind_item(), kind_item(), kind_item(), kind_item(), kind_item(), kind_item(), kind_item(), kind_item(), kind_item(),
+        kind_item(), kind_item(), kind_item(), kind_item(), kind_item(), kind_item(), kind_item(), kind_item(), kind_item(), kind_item(),
+        kind_item(), kind_item(), kind_item(), kind_item(), kind_item(), kind_item(), kind_item(), kind_item(), kind_item(), kind_item(),
+        kind_item(), kind_item(),
+    ];
+    let src = inject::set(&items);
+    let mapping = ProguardMapping::new(src);
+    let mut seen_class = false;
+    let mut want = false;
+    let mut i = 0;
+    while i < 50 {
+        if items[i].is_class() {
+            seen_class = true;
+        } else if items[i].is_member() && seen_class {
+            want = true;
+        }
+        i += 1;
+    }
+    assert!(mapping.is_valid() == want, "C19: is_valid differs from the 50-item window rule");
+    kani::cover!(want && !items[48].is_member() && items[49].is_member() && !items[47].is_member(), "evidence at item 50");
+    kani::cover!(!want && items[49].is_class() && items[50].is_member(), "evidence just outside the window");
+}
+
+// ---------------------------------------------------------------- C18: UUID wiring (SHA-1 uninterpreted)
+#[cfg(feature = "uuid")]
+mod c18 {
+    use super::super::*;
+    use uuid::Uuid;
+
+    // NB: non-zero initial values (Kani aliases all-zero `static mut`s with constants)
+    const BASE: usize = 0x7e57_1000;
+    static mut CALLS: usize = BASE;
+    static mut NS: [[u8; 16]; 2] = [[0xEE; 16]; 2];
+    static mut NAME_PTR: [*const u8; 2] = [&MARK as *const u8; 2];
+    static mut NAME_LEN: [usize; 2] = [BASE; 2];
+    static mut RESULT: [[u8; 16]; 2] = [[0xEE; 16]; 2];
+    static MARK: u8 = 1;
+
+    /// Uninterpreted stand-in for `Uuid::new_v5` (SHA-1 of namespace || name): records
+    /// its arguments and returns a fresh arbitrary value per call.
+    fn new_v5_recorder(namespace: &Uuid, name: &[u8]) -> Uuid {
+        let out: [u8; 16] = kani::any();
+        unsafe {
+            let c = CALLS - BASE;
+            assert!(c < 2, "C18: more than two hash computations");
+            NS[c] = *namespace.as_bytes();
+            NAME_PTR[c] = name.as_ptr();
+            NAME_LEN[c] = name.len();
+            RESULT[c] = out;
+            CALLS += 1;
+        }
+        Uuid::from_bytes(out)
+    }
+
+    /// C18: for every source slice (<=16 symbolic bytes, symbolic length) `uuid()` is
+    /// `new_v5(new_v5(NAMESPACE_DNS, "guardsquare.com"), <exactly the source bytes>)`:
+    /// two hash computations, the first over the DNS namespace and the literal name,
+    /// the second over the first's result and the untouched source slice (same
+    /// pointer, full length - no trimming, no normalisation), and its result returned.
+    #[kani::proof]
+    #[kani::stub(uuid::Uuid::new_v5, new_v5_recorder)]
+    #[kani::unwind(20)]
+    fn c18_uuid_wiring() {
+        let buf: [u8; 16] = kani::any();
+        let len: usize = kani::any();
+        kani::assume(len <= 16);
+        let src = &buf[..len];
+        let mapping = ProguardMapping::new(src);
+        let u = mapping.uuid();
+        unsafe {
+            assert!(CALLS - BASE == 2, "C18: expected exactly two hash computations");
+            assert!(NS[0] == *Uuid::NAMESPACE_DNS.as_bytes(), "C18: first namespace is not the DNS namespace");
+            assert!(NAME_LEN[0] == 15, "C18: first name is not `guardsquare.com`");
+            let n0 = core::slice::from_raw_parts(NAME_PTR[0], 15);
+            assert!(n0 == b"guardsquare.com", "C18: first name is not `guardsquare.com`");
+            assert!(NS[1] == RESULT[0], "C18: second namespace is not the result of the first hash");
+            assert!(NAME_PTR[1] == src.as_ptr() && NAME_LEN[1] == len, "C18: the hashed bytes are not exactly the source bytes");
+            assert!(*u.as_bytes() == RESULT[1], "C18: the returned UUID is not the second hash");
+        }
+        kani::cover!(len == 0, "empty source");
+        kani::cover!(len == 16 && buf[15] == b'\n' && buf[14] == b'\r', "source ending in CRLF");
+    }
+}
